@@ -18,7 +18,9 @@ pub struct EdgeTraversal {
 
 impl EdgeTraversal {
     pub fn total_cost(&self) -> Cost {
-        self.access_cost + self.traversal_cost
+        // the traversal share is derived by subtraction, so the sum of the two shares can
+        // round to zero when the access share dwarfs a floored total
+        Cost::enforce_strictly_positive(self.access_cost + self.traversal_cost)
     }
 }
 
